@@ -638,8 +638,8 @@ func (fr *Frame) applyContract(c ssa.CallInstruction, ci calleeInfo, st *State, 
 	// ensures
 	env := fr.contractEnv(c, ci, st, pre, args, recv, rets)
 	for _, en := range fc.Ensures {
-		if hasCallref(en.Expr) {
-			continue // clause about the callee's internal calls: meaningful only when verifying the callee itself
+		if hasCallref(en.Expr) || mentionsGhost(en.Expr, fc) {
+			continue // clause about the callee's internal calls / ghost state: meaningful only when verifying the callee itself
 		}
 		f, err := env.evalBool(en.Expr)
 		if err != nil {
@@ -665,6 +665,27 @@ func hasCallref(e *SExpr) bool {
 	}
 	for _, a := range e.Args {
 		if hasCallref(a) {
+			return true
+		}
+	}
+	return false
+}
+
+func mentionsGhost(e *SExpr, fc *FuncContract) bool {
+	if e == nil || fc.LoopGhost == nil {
+		return false
+	}
+	if e.Op == "ident" {
+		for _, gs := range fc.LoopGhost {
+			for _, g := range gs {
+				if g.Name == e.Name {
+					return true
+				}
+			}
+		}
+	}
+	for _, a := range e.Args {
+		if mentionsGhost(a, fc) {
 			return true
 		}
 	}
